@@ -52,7 +52,7 @@ def run(ctx):
     ctx.suites_run.append(oracles.SUITE)
     rng = ctx.rng
     n = 8 if not ctx.thorough else 40
-    ctx.rule("all exported optimizers × tasks (continuous regimes, multi-objective with weights, integer-coded pairs, tasks whose objective raises part-way) × configs (incl. population sizes of both parities around the documented one and 3/5/7/11, every accepted candidate value of every algorithm parameter, reversed ranges included) × seeds × serial/thread/process: "
+    ctx.rule("all exported optimizers × tasks (continuous regimes, multi-objective with weights, integer-coded pairs, tasks whose objective raises part-way) (incl. a task edited after construction: a variable appended) × configs (incl. population sizes of both parities around the documented one and 3/5/7/11, every accepted candidate value of every algorithm parameter, reversed ranges included) × seeds × serial/thread/process: "
              "deep dump of config and task before and after every optimize(), returning or raising; plus one shared-config probe per class and shared EarlyStopping objects (fields set / left None); a case = one run; non-trivial = all")
     js = jobs.make_jobs(rng, optimizers.names(), trace.CONT_KINDS + ["multiobj", "mixed", "perm", "disc"], n,
                         modes=("serial", "serial", "thread", "process"), max_cycles_choices=(1, 2, 3, 5), pop_scales=(1, 1.5), vary_params=0.5, multi=True, trace_events=False)
@@ -74,6 +74,11 @@ def run(ctx):
         for es in rng.sample([{"patience": None}, {"min_delta": None}, {"patience": None, "min_delta": None}, {}, {"patience": 2, "min_delta": 0.01}, {"patience": 1, "min_delta": 10.0}], 2 if not ctx.thorough else 6):
             js.append({"name": name, "kind": "early-stopping", "specs": trace.task_specs(rng, "cont-sym", 2), "objective": "sphere", "minmax": rng.choice(["min", "max"]), "seed": rng.randrange(1, 10 ** 6),
                        "cfg": {"max_cycles": 4, "fitness_error": rng.choice([None, 0.5]), "early_stopping": es}, "mode": "serial", "trace": False})
+    # a task edited after construction (a variable appended: derived fields such as space_dimension are stale): optimize() — returning or raising — must not "repair" it
+    for name in optimizers.names():
+        js.append({"name": name, "kind": "task-edited-after-construction", "specs": trace.task_specs(rng, "cont-sym", 2), "objective": "sphere", "minmax": rng.choice(["min", "max"]),
+                   "seed": rng.randrange(1, 10 ** 6), "cfg": {"max_cycles": 2, "fitness_error": None}, "mode": "serial", "trace": False,
+                   "append_variable_after": rng.choice([{"k": "cont", "lb": 0.0, "ub": 2.0}, {"k": "disc", "n": 3, "pool": 1}])})
     # population sizes of the other parity and small ones: where an algorithm rounds, pads or pairs its population it must do so on its own copy of the size
     for name in optimizers.names():
         base = optimizers.CFGS[name][1]["population_size"]
